@@ -368,7 +368,7 @@ def fixed_cases():
 
 def gen_cases(seed, tier):
     rnd = random.Random(seed)
-    n = 3000 if tier == "quick" else 30000
+    n = 1500 if tier == "quick" else 30000
     cases = [{"kind": "config", "services": SERVICES}]
     cid = 1
     for fx in fixed_cases():
